@@ -83,7 +83,7 @@ def feed (t : SSt) : Obs → Option SSt
   | .opn i m v =>
     match t.slots[i]? with
     | some sl => if !sl.opened && t.refsOut > 0 then
-        some { t with slots := t.slots.modify i fun sl => { sl with opened := true, mode := m, gval := v } } else none
+        some { t with slots := modifyAt (fun sl => { sl with opened := true, mode := m, gval := v }) t.slots i } else none
     | none => none
   | .opnFail m =>
     if m = .wait then (if t.fgOut > 0 then some { t with fgOut := t.fgOut - 1 } else none) else some t
@@ -92,25 +92,25 @@ def feed (t : SSt) : Obs → Option SSt
     | some sl =>
       if sl.opened && !sl.gone && t.fgOut > 0 then
         if sl.mode = .wait then some { t with fgOut := t.fgOut - 1 }
-        else some { t with slots := t.slots.modify i fun sl => { sl with mode := .wait } }
+        else some { t with slots := modifyAt (fun sl => { sl with mode := .wait }) t.slots i }
       else none
     | none => none
   | .gm i v =>
     match t.slots[i]? with
     | some sl => if sl.opened && !sl.gone then
-        some { t with slots := t.slots.modify i fun sl => { sl with gval := v } } else none
+        some { t with slots := modifyAt (fun sl => { sl with gval := v }) t.slots i } else none
     | none => none
   | .bG i =>
     match t.slots[i]? with
     | some sl => if sl.opened && !sl.gone then
-        some { t with slots := t.slots.modify i fun sl => { sl with gone := true },
+        some { t with slots := modifyAt (fun sl => { sl with gone := true }) t.slots i,
                       inflight := t.inflight + 1,
                       fgOut := if sl.mode = .wait then t.fgOut - 1 else t.fgOut } else none
     | none => none
   | .eG i =>
     match t.slots[i]? with
     | some sl => if sl.gone && !sl.ended && t.inflight > 0 then
-        some { t with slots := t.slots.modify i fun sl => { sl with ended := true, sure := !cond t },
+        some { t with slots := modifyAt (fun sl => { sl with ended := true, sure := !cond t }) t.slots i,
                       inflight := t.inflight - 1 } else none
     | none => none
   | .app p h vs =>
